@@ -3,7 +3,10 @@
 (* stream.  Level B: three reader state machines shaped after the Go code,    *)
 (*   "scanner"  input/plain.go   bufio.Scanner + ScanLines, Dispatch per token *)
 (*   "readline" input/amqp.go    bufio.Reader(Cap).ReadLine per delivery,      *)
-(*                               isPrefix ignored                              *)
+(*                               isPrefix ignored (a line of up to Cap symbols *)
+(*                               is whole in the one slice that fills the      *)
+(*                               buffer; its terminator then comes out as an   *)
+(*                               empty slice, which is dispatched as well)     *)
 (*   "frames"   input/pickle.go  4-byte length -> peek prefix -> chunk loop -> *)
 (*                               decode/dispatch, per connection               *)
 (* each consuming ANY segmentation of the stream (a read returns 1..all of the *)
@@ -32,7 +35,8 @@ VARIABLES Reader, Cap, Mutant,   \* chosen in the initial state, then fixed
                      \* "run2" | "last2": the same after the error, for a reader that reads on (deviation only)
           term,      \* the terminating condition (the first one: EOF, or the read error)
           cut,       \* symbols received when `term` came (meaningful once term # "none"); stream[cut+1..] is the tail
-          phase,     \* frames: "hdr" | "peek" | "body"; when done: "end" | "error" | "any" | "toolong"
+          phase,     \* frames: "hdr" | "peek" | "body"; when done: "end" | "error" | "any" | "toolong";
+                     \* readline: "skip" while the deviation "drop_on_isprefix" discards the rest of a line
           need, acc  \* frames: payload symbols still missing / collected
 vars == <<Reader, Cap, Mutant, stream, n, lo, out, st, term, cut, phase, need, acc>>
 fixed == <<Reader, Cap, Mutant, stream>>
@@ -104,21 +108,32 @@ ScFinal == /\ st \in {"last", "last2"} /\ ~HasT(n) /\ (Cap = 0 \/ Avail < Cap)
            /\ UNCHANGED <<fixed, n, term, cut, need, acc>>
 ScNext == ScEmit \/ ScTooLong \/ ScRead \/ ScFinal
 
-\* bufio.Reader(Cap).ReadLine in a loop, every returned slice dispatched (isPrefix ignored)
+\* bufio.Reader(Cap).ReadLine in a loop, every returned slice dispatched (isPrefix ignored).
+\* RlFull is ReadLine returning isPrefix = true: the buffer holds Cap symbols and no LF; a CR in the
+\* last place is put back (it may be the first half of a CRLF).  A line of exactly Cap symbols (or
+\* Cap - 1 and CRLF) comes out whole that way, and the next call returns its bare terminator as an
+\* empty slice (RlEmit with p = lo, or stream[lo] = CR and p = lo + 1).
+\* The deviation "drop_on_isprefix" takes isPrefix = true to mean "line longer than Cap": that slice
+\* and the rest of the line up to its LF are discarded (phase = "skip"), nothing is dispatched for it.
 Win == IF Cap = 0 \/ lo + Cap - 1 > n THEN n ELSE lo + Cap - 1       \* the part of the input the buffer holds
+Skipping == phase = "skip"
 RlEmit == /\ st # "done" /\ HasT(Win)
-          /\ LET p == FirstT(Win) IN out' = Append(out, DropCR(stream, lo, p - 1)) /\ lo' = p + 1
-          /\ UNCHANGED <<fixed, n, st, term, cut, phase, need, acc>>
+          /\ LET p == FirstT(Win) IN
+               /\ out' = IF Skipping THEN out ELSE Append(out, DropCR(stream, lo, p - 1))
+               /\ lo' = p + 1
+          /\ phase' = "hdr"
+          /\ UNCHANGED <<fixed, n, st, term, cut, need, acc>>
 RlFull == /\ st # "done" /\ Cap > 0 /\ Avail >= Cap /\ ~HasT(Win)
-          /\ LET b == lo + Cap - 1 IN
-               IF stream[b] = "CR" /\ Cap > 1
-               THEN out' = Append(out, <<lo, b - 1>>) /\ lo' = b        \* the CR is put back
-               ELSE out' = Append(out, <<lo, b>>) /\ lo' = b + 1
-          /\ UNCHANGED <<fixed, n, st, term, cut, phase, need, acc>>
+          /\ LET b == lo + Cap - 1
+                 e == IF stream[b] = "CR" /\ Cap > 1 THEN b - 1 ELSE b        \* the CR is put back
+             IN  /\ out' = IF Skipping \/ Mutant = "drop_on_isprefix" THEN out ELSE Append(out, <<lo, e>>)
+                 /\ lo' = e + 1
+          /\ phase' = IF Mutant = "drop_on_isprefix" THEN "skip" ELSE phase
+          /\ UNCHANGED <<fixed, n, st, term, cut, need, acc>>
 RlRead == /\ ~HasT(Win) /\ (Cap = 0 \/ Avail < Cap) /\ Read
           /\ UNCHANGED <<fixed, lo, out, phase, need, acc>>
 RlFinal == /\ st \in {"last", "last2"} /\ ~HasT(Win) /\ (Cap = 0 \/ Avail < Cap)
-           /\ out' = IF lo <= n THEN Append(out, <<lo, n>>) ELSE out       \* no CR stripping without LF
+           /\ out' = IF lo <= n /\ ~Skipping THEN Append(out, <<lo, n>>) ELSE out       \* no CR stripping without LF
            /\ lo' = n + 1 /\ Finish
            /\ UNCHANGED <<fixed, n, term, cut, need, acc>>
 RlNext == RlEmit \/ RlFull \/ RlRead \/ RlFinal
@@ -159,15 +174,22 @@ Spec == Init /\ [][Next]_vars
 
 ------------------------------------------------------------------------------
 \* properties
-InLimit == Cap = 0 \/ MaxLine(stream) <= Cap \/ Mutant = "claim_unlimited"
+\* the supported limits.  scanner: a line INCLUDING its terminator fits the token buffer (MaxLine);
+\* readline: the CONTENT of every line is at most Cap symbols (MaxNeed; FramingOps: a line that fills
+\* the buffer exactly is still within the limit -- "lines up to 4 KiB are processed whole")
+ACap == IF Reader = "readline" THEN Cap ELSE 0
+InLimit == \/ Cap = 0 \/ Mutant = "claim_unlimited"
+           \/ IF Reader = "readline" THEN MaxNeed(stream) <= Cap ELSE MaxLine(stream) <= Cap
 
 \* C12: at the end exactly the lines of what was received when the terminating condition came, in
 \* order, once each, and nothing of the tail (AcceptableAt: or else the lines of the whole stream);
 \* before the end never anything but complete lines (a metric split across reads -- or across a
-\* read error -- is never dispatched in pieces)
+\* read error -- is never dispatched in pieces).  For the bounded ReadLine reader the C-variants:
+\* a line that fills the buffer exactly is dispatched whole and once, possibly before its terminator
+\* was seen, and possibly followed by one empty line (ACap = 0: exactly AcceptableAt / Terminated)
 LineBody == (Reader # "frames" /\ InLimit) =>
-            /\ st = "done" => out \in AcceptableAt(stream, cut, term)
-            /\ st # "done" => IsPrefixOf(out, Terminated(SubSeq(stream, 1, n), 1, 1))
+            /\ st = "done" => out \in AcceptableAtC(stream, cut, term, ACap)
+            /\ st # "done" => DuringOK(out, stream, n, ACap)
 
 \* C13 (framing part): exactly the complete well-formed frames before the first malformed one,
 \* payloads intact; clean end only at a frame boundary, error otherwise
@@ -189,9 +211,14 @@ FrameOK == Mutant = "" => FrameBody
 \* non-vacuity (Framing_nv.cfg): every named deviation must break LineBody or FrameBody somewhere;
 \* register 10+i remembers that deviation i was caught, the postcondition demands all of them
 MutList == <<"partial_at_refill", "split_on_cr", "drop_last", "dup", "claim_unlimited",
-             "lose_at_cut", "prefix_any", "hdr_eof_clean", "read_on_after_error">>
+             "lose_at_cut", "prefix_any", "hdr_eof_clean", "read_on_after_error", "drop_on_isprefix">>
 MutIdx(m) == CHOOSE i \in 1..Len(MutList) : MutList[i] = m
 ASSUME \A i \in 1..Len(MutList) : TLCSet(10 + i, 0)
+\* without a bound the C-variants are the plain operators
+ASSUME \A s \in UNION {[1..k -> Sym] : k \in 0..3} : \A t \in Terms :
+          /\ AcceptableC(s, t, 0) = Acceptable(s, t)
+          /\ TerminatedC(s, 1, 1, 0) = {Terminated(s, 1, 1)}
+          /\ \A e \in 0..Len(s) : AcceptableAtC(s, e, t, 0) = AcceptableAt(s, e, t)
 \* "read_on_after_error" counts as caught only where the finished connection's dispatch list is one
 \* of ReadOn (the lists the case generators name for that deviation) and AcceptableAt rejects it
 NoteCaught == (/\ Mutant # "" /\ ~(LineBody /\ FrameBody)
